@@ -139,6 +139,10 @@ fn shapes(e: &Entry, b: &ShapeBounds) -> Vec<Vec<DbField>> {
         }
     }
     let x1 = extras1[0].clone();
+    // a second database field carrying the name of the first declared field (documentation silent: no panic)
+    if let Some(f0) = fields.first() {
+        extras1.push(f0.clone());
+    }
     let x2 = DbField { name: "x2".into(), kind: fields.last().map(|f| f.kind).unwrap_or(Kind::Text) };
     let mut out: Vec<Vec<DbField>> = Vec::new();
     let mut seen = std::collections::HashSet::new();
@@ -435,6 +439,8 @@ fn de_case(r: &Ctx, t: &mut Tally, e: &Entry, op: Op, db: &[DbField], p: &Prepar
 struct Bounds {
     shape: ShapeBounds,
     value_rows: usize,
+    /// null patterns other than "nothing null" are combined with the first this-many value rows
+    null_pattern_rows: usize,
     /// de: null patterns range over at most this many leading database positions (the rest stay non-null)
     de_null_bits: usize,
 }
@@ -449,8 +455,10 @@ fn shape_block(r: &Ctx, e: &Entry, op: Op, db: &[DbField], b: &Bounds) {
     // the values are: such shapes get the first and the last null pattern only.
     let dir = if op.is_ser() { rb::Dir::Ser } else { rb::Dir::De };
     let shape_rejected = if op.is_ser() { rb::bind_names(m, db, op.target(), dir).verdict == Verdict::MustReject } else { rb::bind(m, db, op.target(), dir).verdict == Verdict::MustReject };
+    // repeated database names: only "no panic" is asserted, two null patterns are enough
+    let shape_rejected = shape_rejected || rb::bind_names(m, db, op.target(), dir).repeated;
     if shape_rejected {
-        t.add(format!("{}|shapes-rejected-by-reference", op.name()), 1);
+        t.add(format!("{}|shapes-rejected-by-reference-or-repeated-name", op.name()), 1);
     } else {
         t.add(format!("{}|shapes-not-rejected-by-reference", op.name()), 1);
     }
@@ -461,6 +469,9 @@ fn shape_block(r: &Ctx, e: &Entry, op: Op, db: &[DbField], b: &Bounds) {
             let n_masks = 1u32 << optional.len();
             for mask in 0..n_masks {
                 if shape_rejected && mask != 0 && mask != n_masks - 1 {
+                    continue;
+                }
+                if row >= b.null_pattern_rows && mask != 0 {
                     continue;
                 }
                 let mut vals = base.clone();
@@ -479,6 +490,9 @@ fn shape_block(r: &Ctx, e: &Entry, op: Op, db: &[DbField], b: &Bounds) {
             let n_masks = 1u32 << bits;
             for mask in 0..n_masks {
                 if shape_rejected && mask != 0 && mask != n_masks - 1 {
+                    continue;
+                }
+                if row >= b.null_pattern_rows && mask != 0 {
                     continue;
                 }
                 let mut cells = base.clone();
@@ -576,6 +590,7 @@ fn main() {
                 retype_all_perms: thorough || n <= 4,
             },
             value_rows: if thorough { 4 } else { 2 },
+            null_pattern_rows: if thorough { 4 } else { 1 },
             de_null_bits: if thorough { 8 } else { 6 },
         };
         if only.as_deref().is_some_and(|o| o != e.name) {
@@ -611,7 +626,7 @@ fn main() {
     if outcome_classes < 8 {
         vcore::machinery_error("C16 harness collided on too few outcome classes");
     }
-    r.set_rule("E-ENUM. Per family struct and derive: every subset of its fields missing x every permutation of the rest x {0, 1 extra at every position, 2 extras at every position pair (quick, >4 fields: only with <=1 field missing)} + one field retyped + Rust-name-instead-of-rename / name-of-a-skipped-field as extra; serialization x value rows x every null pattern of Option fields (+ round trip through the struct's own deserializer); deserialization x value rows x every null pattern of database cells (first 6|8 positions) + every UDT truncation point. Oracle cqlref::binder from the attribute documentation. distinct_nontrivial = cases whose database list differs from the declared field list.");
+    r.set_rule("E-ENUM. Per family struct and derive: every subset of its fields missing x every permutation of the rest x {0, 1 extra at every position, 2 extras at every position pair (quick, >4 fields: only with <=1 field missing)} + one field retyped + Rust-name-instead-of-rename / name-of-a-skipped-field / a repeated name as extra; serialization x 2|4 value rows x every null pattern of Option fields (quick: null patterns with the first value row) (+ round trip through the struct's own deserializer); deserialization x 2|4 value rows x every null pattern of database cells (first 6|8 positions) + every UDT truncation point. Oracle cqlref::binder from the attribute documentation. distinct_nontrivial = cases whose database list differs from the declared field list.");
     r.set_exhaustive(true);
     r.sample(json!({"struct": fam[0].source, "op": "ser-value", "db": [["c","boolean"],["a","int"],["b","text"]], "expected": "cells emitted at database positions c,a,b; read back by name"}));
     if let Some(e) = fam.iter().find(|e| e.name == "V12") {
